@@ -437,3 +437,168 @@ Definition demand_profiles (n : Z) (w : worker) : Z :=
   fold_right (fun ps acc => req_name n (s_req (snd ps)) + acc) 0 (w_avail_prof w ++ w_pend_prof w).
 Definition demand_name (w : worker) (n : Z) : Z := demand_tasks n w + demand_batches n w + demand_profiles n w.
 Definition cap_name (w : worker) (n : Z) : Z := sumP (fun k => fst k =? n) (r_total (w_res w)).
+
+(* ---------------------------------------------------------------------------------------------- *)
+(* A world of several objects (Resources / Worker / WorkerPool and their copies), for the
+   correspondence stream S-ledger and for the statements about copies.  A copy shares with its
+   original the task, strategy and profile objects; the only shared MUTABLE object is the copied
+   loading strategy of a pending profile (Worker.step decrements its `_runtime` in place), which
+   the world makes explicit: pending entries carry the identity (s_id) of that object and a step of
+   one object is propagated to the entries of the other objects holding the same identity.  To keep
+   identities globally unique every copied worker continues numbering from a fresh base. *)
+Inductive obj := ORes (R : res) | OWorker (w : worker) | OPool (P : pool) | ODead (e : Z).
+Inductive wcmd :=
+| CRes (i : nat) (o : rop) | CWorker (i : nat) (o : wop) | CPool (i : nat) (o : pop)
+| CCopy (i : nat) | CDeepCopy (i : nat).
+Record world := mkWorld { wo_objs : list obj; wo_base : Z }.
+
+Fixpoint set_nth {A} (n : nat) (a : A) (l : list A) : list A :=
+  match l, n with
+  | [], _ => []
+  | _ :: l', O => a :: l'
+  | x :: l', S n' => x :: set_nth n' a l'
+  end.
+
+Definition sync_pend (src pend : list (Z * strategy)) : list (Z * strategy) :=
+  map (fun ps => match find (fun ps' => s_id (snd ps') =? s_id (snd ps)) src with
+                 | Some ps' => (fst ps, mkStrat (s_id (snd ps)) (s_is_batch (snd ps)) (s_req (snd ps))
+                                               (s_bsize (snd ps)) (s_runtime (snd ps')))
+                 | None => ps
+                 end) pend.
+Definition w_sync (src : list (Z * strategy)) (w : worker) : worker :=
+  mkWorker (w_id w) (w_res w) (w_placed w) (w_batches w) (w_btask w) (w_avail_prof w)
+           (sync_pend src (w_pend_prof w)) (w_fresh w).
+Definition obj_sync (src : list (Z * strategy)) (o : obj) : obj :=
+  match o with
+  | OWorker w => OWorker (w_sync src w)
+  | OPool P => OPool (mkPool (p_id P) (map (w_sync src) (p_workers P)) (p_placed P))
+  | _ => o
+  end.
+Definition obj_pending (o : obj) : list (Z * strategy) :=
+  match o with
+  | OWorker w => w_pend_prof w
+  | OPool P => flat_map w_pend_prof (p_workers P)
+  | _ => []
+  end.
+Definition is_step_w (o : wop) : bool := match o with WStep _ => true | _ => false end.
+Definition is_step_p (o : pop) : bool := match o with PStep _ => true | _ => false end.
+
+(* outcome codes: 0 = done / True, -1 = returned False, e > 0 = raised error e, -2 = bad command *)
+Definition code_unit (r : result unit) : Z := match r with Ok _ => 0 | Err e => e end.
+Definition code_bool (r : result bool) : Z := match r with Ok true => 0 | Ok false => -1 | Err e => e end.
+
+Fixpoint rebase_workers (base : Z) (ws : list worker) : list worker * Z :=
+  match ws with
+  | [] => ([], base)
+  | W :: ws' => let '(l, b) := rebase_workers (base + 1000) ws' in (w_rebase base W :: l, b)
+  end.
+
+Definition world_step (W : world) (c : wcmd) : world * Z :=
+  let objs := wo_objs W in
+  match c with
+  | CRes i o =>
+      match nth_error objs i with
+      | Some (ORes R) => let '(R', r) := r_step R o in (mkWorld (set_nth i (ORes R') objs) (wo_base W), code_unit r)
+      | _ => (W, -2)
+      end
+  | CWorker i o =>
+      match nth_error objs i with
+      | Some (OWorker w) =>
+          let '(w', r) := w_opstep w o in
+          let objs' := if is_step_w o then map (obj_sync (w_pend_prof w')) objs else objs in
+          (mkWorld (set_nth i (OWorker w') objs') (wo_base W), code_unit r)
+      | _ => (W, -2)
+      end
+  | CPool i o =>
+      match nth_error objs i with
+      | Some (OPool P) =>
+          let '(P', r) := p_opstep P o in
+          let objs' := if is_step_p o then map (obj_sync (obj_pending (OPool P'))) objs else objs in
+          (mkWorld (set_nth i (OPool P') objs') (wo_base W), code_bool r)
+      | _ => (W, -2)
+      end
+  | CCopy i =>
+      match nth_error objs i with
+      | Some (ORes R) =>
+          match r_copy R with
+          | Ok R' => (mkWorld (objs ++ [ORes R']) (wo_base W), 0)
+          | Err e => (mkWorld (objs ++ [ODead e]) (wo_base W), e)
+          end
+      | Some (OWorker w) =>
+          match w_copy w with
+          | Ok w' => (mkWorld (objs ++ [OWorker (w_rebase (wo_base W) w')]) (wo_base W + 1000), 0)
+          | Err e => (mkWorld (objs ++ [ODead e]) (wo_base W), e)
+          end
+      | Some (OPool P) =>
+          match p_copy P with
+          | Ok P' => let '(ws, b) := rebase_workers (wo_base W) (p_workers P') in
+                     (mkWorld (objs ++ [OPool (mkPool (p_id P') ws (p_placed P'))]) b, 0)
+          | Err e => (mkWorld (objs ++ [ODead e]) (wo_base W), e)
+          end
+      | _ => (W, -2)
+      end
+  | CDeepCopy i =>
+      match nth_error objs i with
+      | Some (ORes R) => (mkWorld (objs ++ [ORes (r_deepcopy R)]) (wo_base W), 0)
+      | Some (OWorker w) => (mkWorld (objs ++ [OWorker (w_rebase (wo_base W) (w_deepcopy w))]) (wo_base W + 1000), 0)
+      | Some (OPool P) => let '(ws, b) := rebase_workers (wo_base W) (p_workers (p_deepcopy P)) in
+                          (mkWorld (objs ++ [OPool (mkPool (p_id P) ws [])]) b, 0)
+      | _ => (W, -2)
+      end
+  end.
+
+(* observations *)
+Record probes := mkProbes { pr_keys : list rkey; pr_strats : list strategy; pr_profs : list Z; pr_tasks : list Z }.
+
+Definition sum_alloc_comp (R : res) (r : rkey) : Z :=
+  fold_right (fun cq acc => snd cq + acc) 0 (r_get_allocated_computation R r).
+(* a batch placeholder is shown as the batch strategy it is registered for (-1: not registered) *)
+Definition vcomp_in (bt : list (Z * Z)) (c : comp) : val :=
+  match c with
+  | CBatch b => match find (fun sb => snd sb =? b) bt with
+                | Some sb => L [I 1; I (fst sb)]
+                | None => L [I 1; I (-1)]
+                end
+  | _ => vcomp c
+  end.
+Definition obs_res (pr : probes) (vc : comp -> val) (R : res) : val :=
+  L [ L (map (fun r => L [I (r_available R r); I (r_allocated_q R r); I (r_total_q R r); I (sum_alloc_comp R r)])
+             (pr_keys pr));
+      vbool (r_empty R);
+      L (map (fun s => vbool (r_gt R (s_req s))) (pr_strats pr));
+      L (map (fun cl => L [vc (fst cl); vrvec (snd cl)]) (r_allocs R));
+      vrvec (r_avail R) ].
+Definition obs_worker (pr : probes) (w : worker) : val :=
+  L [ obs_res pr (vcomp_in (w_btask w)) (w_res w);
+      L (map (fun ts => L [I (fst ts); I (s_id (snd ts))]) (w_placed w));
+      L (map (fun s => vbool (w_fits s w)) (pr_strats pr));
+      L (map I (w_available_profiles w));
+      L (map I (w_pending_profiles w));
+      L (map (fun p => I (w_is_available p w)) (pr_profs pr));
+      vbool (w_is_full w);
+      L (map (fun sm => L [I (fst sm); L (map (fun t => vbool (set_mem t (snd sm))) (pr_tasks pr))]) (w_batches w));
+      L (map (fun sb => I (fst sb)) (w_btask w)) ].
+Definition obs_pool (pr : probes) (P : pool) : val :=
+  L [ L (map (obs_worker pr) (p_workers P));
+      L (map (fun tw => L [I (fst tw); I (snd tw)]) (p_placed P));
+      L (map (fun s => vbool (p_fits s P)) (pr_strats pr));
+      vbool (p_is_full P);
+      L (map (fun kav => L [vkey (fst (fst kav)); I (snd (fst kav)); I (snd kav)]) (p_utilization P)) ].
+Definition obs_obj (pr : probes) (o : obj) : val :=
+  match o with
+  | ORes R => L [I 0; obs_res pr vcomp R]
+  | OWorker w => L [I 1; obs_worker pr w]
+  | OPool P => L [I 2; obs_pool pr P]
+  | ODead e => L [I 3; I e]
+  end.
+Fixpoint world_observe (pr : probes) (W : world) (cs : list wcmd) : list val :=
+  match cs with
+  | [] => []
+  | c :: cs' =>
+      let '(W', code) := world_step W c in
+      L [I code; L (map (obs_obj pr) (wo_objs W'))] :: world_observe pr W' cs'
+  end.
+Definition world_case := (probes * list obj * list wcmd)%type.
+Definition world_obs (x : world_case) : val :=
+  let '(pr, objs, cs) := x in
+  L (L (map (obs_obj pr) objs) :: world_observe pr (mkWorld objs 1000000) cs).
